@@ -262,14 +262,21 @@ def rule_split_radix(col, facts, radices=None):
     for b in reachable_pow_bases(facts, radices):
         try:
             res = tbl_eval(facts, sr, [b])
+            o, s = res.value
+            dflt = res.default_taken
         except NotATable as e:
-            col.bad(R, "split_radix-shape", "split_radix is no longer a pure lookup: %s" % e, sr.loc())
-            return
-        o, s = res.value
-        ok = ((o if o else 1) << s) == b and (o == 0 or o % 2 == 1) and not res.default_taken
+            # no longer a lookup: read it as the decision table of its (loop-free, arithmetic) paths
+            from rules.pathmodel import model_value, Shape as _Shape, Panic as _Panic
+            try:
+                o, s = model_value(sr, [b], "u32")
+                dflt = False
+            except (_Shape, _Panic, ValueError, TypeError) as e2:
+                col.bad(R, "split_radix-shape", "split_radix is neither a pure lookup nor loop-free arithmetic: %s; %s" % (e, e2), sr.loc())
+                return
+        ok = ((o if o else 1) << s) == b and (o == 0 or o % 2 == 1) and not dflt
         col.check(R, "split_radix(%d)" % b, ok,
                   "split_radix(%d) = (%d, %d): need odd factor o (or 0) with o*2^s = %d%s" %
-                  (b, o, s, b, " [wildcard arm]" if res.default_taken else ""), sr.loc())
+                  (b, o, s, b, " [wildcard arm]" if dflt else ""), sr.loc())
         # whatever split_radix returns is what pow() is called with: that value must be served
         if o == 0:
             continue
